@@ -48,9 +48,10 @@ func Guard(d time.Duration, f func()) Outcome {
 	case o := <-done:
 		return o
 	case <-timer.C:
-		// give it one more period if the machine is heavily loaded: a call that is merely slow
-		// must not be called a hang
-		timer2 := time.NewTimer(d)
+		// give it five more periods: on a heavily loaded machine (load average of several times the
+		// core count while other checks run) a call that is merely slow - fresh memory is expensive to
+		// touch in this sandbox - must not be called a hang. A call that really spins costs 60 s once.
+		timer2 := time.NewTimer(5 * d)
 		defer timer2.Stop()
 		select {
 		case o := <-done:
